@@ -14,6 +14,18 @@ pub mod c04;
 #[cfg(feature = "full")]
 pub mod c05;
 #[cfg(feature = "full")]
+pub mod c06;
+#[cfg(feature = "full")]
+pub mod c07;
+#[cfg(feature = "full")]
+pub mod c08;
+#[cfg(feature = "full")]
+pub mod c09;
+#[cfg(feature = "full")]
+pub mod c10;
+#[cfg(feature = "full")]
+pub mod c19;
+#[cfg(feature = "full")]
 pub mod common;
 
 pub struct Violation {
@@ -155,6 +167,12 @@ pub fn run_case(case: &mut Case) {
         "C03" => c03::run_case(case),
         "C04" => c04::run_case(case),
         "C05" => c05::run_case(case),
+        "C06" => c06::run_case(case),
+        "C07" => c07::run_case(case),
+        "C08" => c08::run_case(case),
+        "C09" => c09::run_case(case),
+        "C10" => c10::run_case(case),
+        "C19" => c19::run_case(case),
         p => panic!("unknown property {}", p),
     }
 }
